@@ -1,18 +1,9 @@
 import Qryn.Proofs.MetricShortcut
+import Qryn.LogQL.Supported
 /-! C08 plan-level proofs: the supported class as one decidable predicate, the union theorem, and the clauses of the
     property that are about the composition. -/
 namespace Qryn.LogQL
 open Qryn Qryn.Sql
-
-/-- the queries the plan-level theorem covers: the range aggregation is rate / count_over_time / bytes_rate /
-    bytes_over_time (no unwrap), its range a positive whole number of milliseconds, at most 63 stream matchers, and a
-    vector aggregation (if any) has a grouping clause and is sum / min / max / avg / count -/
-def supported (q : MetricQuery) : Bool :=
-  (match q.rangeAgg.kind with | .lra _ => true | .unwrap _ _ => false) &&
-  (match q.agg? with
-   | none => true
-   | some a => (chosenGrouping a.byPrefix a.bySuffix).isSome && a.fn != .stddev && a.fn != .stdvar) &&
-  decide (q.rangeAgg.durNs % 1000000 = 0) && decide (0 < q.rangeAgg.durNs) && decide (q.rangeAgg.sel.matchers.length ≤ 63)
 
 theorem supported_spec (q : MetricQuery) (h : supported q = true) :
     (∃ fn, q.rangeAgg.kind = .lra fn) ∧ aggOk q ∧ 1000000 ∣ q.rangeAgg.durNs ∧ 0 < q.rangeAgg.durNs ∧
@@ -36,6 +27,11 @@ theorem supported_spec (q : MetricQuery) (h : supported q = true) :
 def ShortcutOk (o : Oracles) (d : LokiDb) (q : MetricQuery) : Prop :=
   (∀ s ∈ d.samples, 0 ≤ s.ts) ∧
   ∀ s ∈ d.samples, (lineFilters q.rangeAgg.sel).all (fun f => lineHolds o f s.str) = true
+
+theorem shortcutOkB_spec (o : Oracles) (d : LokiDb) (q : MetricQuery) (h : shortcutOkB o d q = true) : ShortcutOk o d q := by
+  unfold shortcutOkB at h
+  simp only [Bool.and_eq_true] at h
+  exact ⟨fun s hs => by simpa using List.all_eq_true.mp h.1 s hs, fun s hs => List.all_eq_true.mp h.2 s hs⟩
 
 /-- **plan_metric_correct.** For every supported metric query, every context and every database, evaluating the
     generated statement (values read as numbers) gives exactly the matrix of the direct reading — on the samples path
